@@ -44,6 +44,8 @@ class G:
 
     def ref(self):
         r = self.r
+        if r.chance(0.04):
+            return "__base__." + r.choice(BASE)
         return r.choice(self.names) if r.chance(0.75) else r.choice(BASE)
 
     def mods(self):
@@ -351,6 +353,61 @@ def m_reference(r, g):
     return g.text(), "reference"
 
 
+QUALIFIED = ["__base__.INT", "__base__.ID", "__base__.Foo", "types.Item", "a.b.C", "lib.common.Thing", "A.A", "B.x", "None.A",
+             "c23lang.Thing", "c23lang.Model", "c23lang.Nope", "nolang.X", "textx.TextxRule", "textx.Nope", "t.Thing", "t.Nope",
+             "c23lang.sub.Thing", "__base__.sub.INT"]
+
+
+def m_qualified(r, g):
+    """fully qualified rule / class references with existing and non-existing namespaces"""
+    for _ in range(r.range(0, 2)):
+        lang = r.choice(["c23lang", "textx", "nolang"])
+        g.header.append("reference %s%s" % (lang, r.choice(["", "", " as t"])))
+    q = r.choice(QUALIFIED)
+    ru = r.choice(g.rules)
+    k = r.below(9)
+    if k == 0:
+        ru["body"] += " " + q
+    elif k == 1:
+        ru["body"] += " q=" + q
+    elif k == 2:
+        ru["body"] += " q+=%s[',']" % q
+    elif k == 3:
+        ru["body"] = q                      # alias of a qualified rule
+        ru["params"] = ""
+    elif k == 4:
+        ru["body"] = q + "-"
+        ru["params"] = ""
+    elif k == 5:
+        ru["body"] += " q=[%s]" % q
+    elif k == 6:
+        ru["body"] += " | %s+ !%s (%s)#" % (q, q, q)
+    elif k == 7:                            # alias chain ending in a qualified rule
+        ru["body"] = q
+        ru["params"] = ""
+        if len(g.rules) > 1:
+            other = r.choice([x for x in g.rules if x is not ru])
+            other["body"] = ru["name"]
+            other["params"] = ""
+    else:
+        ru["body"] += " q=[%s|%s]" % (r.choice(g.names), "ID")
+        _replace_ref(r, g, q)
+    return g.text(), "qualified"
+
+
+def m_bool_many(r, g):
+    """a `?=` attribute that is also assigned elsewhere in the rule"""
+    ru = r.choice(g.rules)
+    a = r.choice(ATTRS)
+    tail = r.choice(["%s*=ID" % a, "%s+=ID" % a, "(%s=ID)*" % a, "%s=ID %s=INT" % (a, a), "| 'k' %s=ID" % a, "| %s+=ID" % a,
+                     "(%s=ID | 'z')+" % a, "%s=ID" % a, "('x' | %s=ID) %s=ID" % (a, a), "(%s*=ID)#" % a, "(%s=ID)#" % a])
+    if r.chance(0.5):
+        ru["body"] = "%s?='q' %s" % (a, tail)
+    else:
+        ru["body"] = "%s?='q' %s %s" % (a, ru["body"], tail)
+    return g.text(), "bool-many"
+
+
 def m_import(r, g):
     g.header.insert(0, "import " + r.choice(["foo", "a.b", "base"]))
     return g.text(), "import"
@@ -400,7 +457,7 @@ def m_garbage(r, g):
 
 MUTATORS = [(m_token, 10), (m_undefined, 4), (m_bad_regex, 4), (m_bad_string, 4), (m_bad_param, 4), (m_bad_modifier, 3),
             (m_multi_bool, 1), (m_alias_cycle, 5), (m_ugroup_ref, 3), (m_bad_objref, 4), (m_reference, 3), (m_import, 1),
-            (m_duplicate, 3), (m_garbage, 3)]
+            (m_duplicate, 3), (m_qualified, 6), (m_bool_many, 3), (m_garbage, 3)]
 
 
 def gen_case(r):
@@ -411,7 +468,7 @@ def gen_case(r):
     m = r.weighted(MUTATORS)
     text, label = m(r, g)
     if r.chance(0.12) and m is not m_garbage:      # stack a second mutation
-        m2 = r.weighted(MUTATORS[1:13])
+        m2 = r.weighted(MUTATORS[1:15])
         if m2 is not m:
             text, l2 = m2(r, g)
             label += "+" + l2
